@@ -259,9 +259,20 @@ def agp_design_mc(ctx, pid):
                      agp_cfg(limit=5 if ctx.quick else 6, vals=("0", "1"), faults=True, maxbatch=2, maxtrials=100, constraint=False,
                              props=["SolveReturns"])))
     jobs = [lambda c=c: run_tlc("AGP", c, workers=4, timeout=3000, xmx="6g", coverage=True) for (_, c) in cfgs]
+    # random simulation far beyond the exhaustive bounds (5 values incl. a negative one, 5 calls, batches of 6, 16 trials, faults): it
+    # found the drained-queue corner (only the left end's -inf entry left after repeated failures) that the exhaustive bounds do not reach
+    simcfg = agp_cfg(r="5/2", eps="1/40", limit=14, vals=("0", "1", "2", "7/2", "-1"), faults=True, maxcalls=5, maxbatch=6, maxtrials=16,
+                     invs=sorted(set(invs) | {"RecordOK", "BestOK", "CountOK"}))
+    simjob = lambda: run_tlc("AGP", simcfg, workers=4, timeout=3000, xmx="4g", simulate="num=%d" % (150 if ctx.quick else 3000), depth=80,
+                             seed=ctx.seed + 1)      # noqa: E731
     negs = AGP_NEG.get(pid, [])
     njobs = [lambda v=v, i=i: run_tlc("AGP", agp_cfg(invs=[i], variant=v), workers=2, timeout=600) for (v, i) in negs]
-    results = run_batches(jobs + njobs, max_workers=5)
+    results = run_batches(jobs + njobs + [simjob], max_workers=5)
+    sim = results.pop()
+    if "Error:" in sim.out or sim.violated:
+        raise TLCError("AGP.tla simulation run failed:\n" + sim.out[-2500:])
+    import re as _re
+    msim = _re.findall(r"Progress: (\d+) states checked, (\d+) traces generated", sim.out)
     out = {"states": 0, "transitions": 0, "configs": []}
     for (name, _), r in zip(cfgs, results):
         require_ok(r, "AGP.tla " + name)
@@ -274,6 +285,8 @@ def agp_design_mc(ctx, pid):
         out["configs"].append({"module": "AGP", "config": name, "invariants": invs if "liveness" not in name else [], "properties": props if "liveness" not in name else ["SolveReturns"],
                                "distinct": r.distinct, "generated": r.generated, "depth": r.depth,
                                "actions": {k: v[1] for k, v in cov.items() if k[0].isupper() and k not in invs}})
+    out["configs"].append({"module": "AGP", "config": "random simulation: 5 values, 5 calls, batches <= 6, 16 trials, faults", "invariants": "all of the property",
+                           "states_checked": int(msim[-1][0]) if msim else 0, "traces": int(msim[-1][1]) if msim else 0})
     for (v, i), r in zip(negs, results[len(cfgs):]):
         if i not in r.violated:
             raise TLCError("negative control: AGP.tla variant %s should violate %s but TLC reported %s" % (v, i, r.violated or "no error"))
